@@ -3653,11 +3653,11 @@ func recv(n *node) {
 				done := f.done
 				f.mutex.RUnlock()
 
-				var chosen int
-				chosen, getFrame(f, l).data[i], _ = reflect.Select([]reflect.SelectCase{done, {Dir: reflect.SelectRecv, Chan: ch}})
+				chosen, v, _ := reflect.Select([]reflect.SelectCase{done, {Dir: reflect.SelectRecv, Chan: ch}})
 				if chosen == 0 {
 					return nil
 				}
+				getFrame(f, l).data[i] = v
 				return tnext
 			}
 		}
